@@ -7,7 +7,7 @@ From Coq Require Import Arith PeanoNat ZifyBool.
 (* ------------------------------------------------------------------ counting lemmas *)
 
 Lemma cntp_nil p : cntp p [] = 0. Proof. reflexivity. Qed.
-Lemma cntp_cons p x l : cntp p (x :: l) = (if p x then 1 else 0) + cntp p l.
+Lemma cntp_cons p x l : cntp p (x :: l) = Nat.b2n (p x) + cntp p l.
 Proof. unfold cntp; simpl; destruct (p x); reflexivity. Qed.
 Lemma cntp_app p l1 l2 : cntp p (l1 ++ l2) = cntp p l1 + cntp p l2.
 Proof. unfold cntp; rewrite filter_app, app_length; reflexivity. Qed.
@@ -71,7 +71,7 @@ Proof.
 Qed.
 
 Lemma take_nth_cnt p k l j rest : take_nth k l = Some (j, rest) ->
-  cntp p l = (if p j then 1 else 0) + cntp p rest /\ length l = S (length rest).
+  cntp p l = Nat.b2n (p j) + cntp p rest /\ length l = S (length rest).
 Proof.
   revert k j rest. induction l as [|x l IH]; intros k j rest H; simpl in H; [discriminate|].
   destruct k.
@@ -148,7 +148,11 @@ Record ACaller (cf : config) (st : bool) (c : nat) (k : caller) : Prop := {
   ac_own : Forall (fun j => fst j = c) (c_hand k) }.
 
 Lemma ACaller_mono cf st st' c k : (st = true -> st' = true) -> ACaller cf st c k -> ACaller cf st' c k.
-Proof. intros Hm [? ? ? ? ? ? ? ? ?]. constructor; auto; intro; intuition. Qed.
+Proof.
+  intros Hm [H1 H2 H3 H4 H5 H6 H7 H8 H9]. constructor; auto.
+  - intro X. destruct (H4 X); auto.
+  - intro X. destruct (H5 X) as [?|[?|?]]; auto.
+Qed.
 
 Record InvA (cf : config) (s : state) : Prop := {
   a_stopped : stpc_eqb (st_pc s) StInit = false -> stopped s = true;
@@ -201,9 +205,18 @@ Ltac tidy := repeat match goal with
   | |- true = false -> _ => let X := fresh in intro X; discriminate X
   end.
 
+Ltac rw_eqs := repeat match goal with
+  | H : ?l = ?r |- _ =>
+      lazymatch l with
+      | queue _ => idtac | input _ => idtac | p_final _ => idtac | q_pc _ => idtac | p_pc _ => idtac
+      | st_pc _ => idtac | idle _ => idtac | returning _ => idtac | ntok _ => idtac | stopped _ => idtac
+      | can_stop _ => idtac | qclosed _ => idtac | can_cancel _ _ => idtac
+      end; rewrite H in *; clear H
+  end.
+
 Ltac fin := first
   [ assumption
-  | solve [simpl in *; rewrite ?app_length in *; simpl in *;
+  | solve [simpl in *; rw_eqs; rewrite ?app_length in *; simpl in *;
            repeat (match goal with |- context [if ?b then _ else _] => destruct b eqn:? end; simpl in *);
            tidy;
            first [assumption | reflexivity | solve [auto 3]
@@ -263,3 +276,89 @@ Qed.
 
 Lemma invA_reachable cf s : reachable cf s -> InvA cf s.
 Proof. induction 1; [apply invA_init | eapply invA_step; eauto]. Qed.
+
+(* ------------------------------------------------------------------ invariant B: every job is in exactly one place *)
+
+Definition qheld (s : state) : list job := match q_pc s with QGot j => [j] | _ => [] end.
+Definition pheld (s : state) : list job := match p_pc s with PDo j => [j] | _ => [] end.
+(* accepted jobs whose result is not stored yet *)
+Definition inflight (s : state) : list job := input s ++ qheld s ++ queue s ++ pheld s ++ running s.
+Definition pend (p : spc) : nat := match p with SCheck | SSelect | SFail => 1 | _ => 0 end.
+
+Record BCaller (s : state) (c : nat) (k : caller) : Prop := {
+  bc_wg : c_wg k = cntc c (inflight s) + cntc c (res s) + length (c_hand k) + pend (c_spc k);
+  bc_tok : 0 < cntc c (res s) -> c_tok k = true \/ rpc_eqb (c_rpc k) RGot = true;
+  bc_zero : spc_eqb (c_spc k) SRemoved = true \/ spc_eqb (c_spc k) SRet = true -> c_wg k = 0 }.
+
+Record InvB (cf : config) (s : state) : Prop := {
+  b_err : err s = false;
+  b_caller : forall c, BCaller s c (callers s c);
+  b_job : forall j, cntj j (inflight s) + cntj j (res s) + cntj j (c_hand (callers s (fst j))) + cntj j (deliv s)
+                    = Nat.b2n (snd j <? c_nxt (callers s (fst j))) }.
+
+Lemma invB_init cf : InvB cf init.
+Proof. constructor; simpl; [reflexivity | intro c; constructor; unfold cntc, cntp; simpl; lia | intro j; reflexivity]. Qed.
+
+Lemma length_filter_cntp p l : length (filter p l) = cntp p l. Proof. reflexivity. Qed.
+
+Lemma cntpj_filter_caller j c l :
+  cntp (job_eqb j) (filter (of_caller c) l) = if Nat.eqb (fst j) c then cntp (job_eqb j) l else 0.
+Proof. exact (cntj_filter_caller j c l). Qed.
+Lemma cntpj_filter_notcaller j c l :
+  cntp (job_eqb j) (filter (fun x => negb (of_caller c x)) l) = if Nat.eqb (fst j) c then 0 else cntp (job_eqb j) l.
+Proof. exact (cntj_filter_notcaller j c l). Qed.
+Lemma cntpc_zero_cntpj c a b l : cntp (of_caller c) l = 0 -> cntp (job_eqb (c, a)) l = 0 /\ b = b.
+Proof. intro H. split; [|reflexivity]. apply (cntc_zero_cntj (c, a)). exact H. Qed.
+
+Ltac cs :=
+  unfold inflight, qheld, pheld, cntj, cntc in *; simpl in *; rw_eqs; simpl in *;
+  repeat match goal with
+  | H : take_nth _ (running _) = Some _ |- _ =>
+      let E := fresh in
+      match goal with
+      | |- context [cntp ?P _] => pose proof (proj1 (take_nth_cnt P _ _ _ _ H)) as E; revert E
+      end; clear H
+  end; intros;
+  rewrite ?cntp_app, ?cntp_cons, ?cntp_nil, ?app_length, ?length_filter_cntp, ?cntp_filter_same,
+          ?cntp_filter_neg, ?cntpj_filter_caller, ?cntpj_filter_notcaller, ?Nat.eqb_refl in *;
+  simpl in *.
+
+Ltac finB := first
+  [ assumption
+  | solve [cs; tidy; unfold job_eqb, of_caller in *; simpl in *;
+           first [assumption | reflexivity
+                 | solve [repeat match goal with H : _ -> _ |- _ => clear H end; lia] | lia]] ].
+
+Ltac open_labelB HB HC :=
+  match goal with
+  | H : step _ _ ?l = Some _ |- _ =>
+      unfold step, wc in H;
+      match l with
+      | LWRun _ => idtac
+      | ?f ?c => let HB1 := fresh "HB1" in pose proof (HB c) as HB1; open_caller HC c;
+                 destruct HB1 as [Bwg Btok Bzero]; simpl in *
+      | _ => idtac
+      end;
+      step_cases H; bool_hyps
+  end.
+
+Ltac callerB_other HB c' :=
+  let X := fresh "X" in pose proof (HB c') as X; destruct X as [Xwg Xtok Xzero];
+  constructor; simpl; finB.
+
+Ltac caller_goalB HB :=
+  let c' := fresh "c'" in
+  intro c'; simpl;
+  lazymatch goal with
+  | |- BCaller _ _ (upd _ ?c _ c') =>
+      unfold upd; destruct (Nat.eqb_spec c' c) as [->|?];
+      [ constructor; simpl; finB | callerB_other HB c' ]
+  | |- _ => callerB_other HB c'
+  end.
+
+Lemma invB_step cf s l s' : InvA cf s -> InvB cf s -> step cf s l = Some s' -> InvB cf s'.
+Proof.
+  intros HA [Herr HB Hjob] H. pose proof (a_caller _ _ HA) as HC. clear HA.
+  destruct l; open_labelB HB HC;
+  (constructor; simpl; [ finB | caller_goalB HB | idtac ]).
+Admitted.
